@@ -1,5 +1,5 @@
 (* C20 — a rejected call leaves no trace in later files. Statements only. *)
-From DV Require Import Model.ApiDispatch Proofs.BuilderP Proofs.RegP Proofs.VisP.
+From DV Require Import Model.ApiDispatch Proofs.BuilderP Proofs.RegP Proofs.VisP Proofs.FileP Proofs.KeepP.
 
 (* same_content st st' (Proofs/BuilderP.v): the objects, the registration list of every existing set, the no-format
    data, the data dictionary and the header of every logical file are unchanged; sets that did not exist before are
@@ -77,8 +77,39 @@ Proof.
   intros ops ps. split; [apply run_ops_inv_reg, inv_reg_init | apply run_ops_inv_sub; [apply inv_reg_init | apply inv_sub_init]].
 Qed.
 
+(* the last clause — a write that raises. In every state reachable by API calls and writes, a write that FAILS (for any
+   reason, at any point) leaves the sets, the physical registry and the registry of every logical file exactly as they were,
+   every object with its type, and every attribute value / units the user gave; all it can leave behind are write-time
+   defaults at the listed sites (Proofs/KeepP.v, regenerated from the source) where nothing had been given. What those
+   defaults then do to a later write with OTHER data is known finding D9 (C13/C14), not covered here. *)
+Theorem C20_failed_write_keeps_the_specification : forall l ps hc w st' e,
+  let st := snd (run_actions ps b_init l) in
+  write hc st w = (st', Err e) ->
+  b_sets st' = b_sets st /\ b_phys st' = b_phys st /\ map l_reg (b_lfs st') = map l_reg (b_lfs st)
+  /\ forall i idx,
+       let ty := i_ty (item_at st i) in
+       let v := fst (get_attr (item_at st i) idx) in let v' := fst (get_attr (item_at st' i) idx) in
+       let u := snd (get_attr (item_at st i) idx) in let u' := snd (get_attr (item_at st' i) idx) in
+       i_ty (item_at st' i) = ty
+       /\ (spv_truthy v = true -> derived ty idx = false -> v' = v)
+       /\ (site default_sites ty idx = false -> v' = v)
+       /\ (u <> None -> u' = u) /\ (site unit_sites ty idx = false -> u' = u).
+Proof.
+  intros l ps hc w st' e st H.
+  assert (Hi : Inv st) by (apply reachable_inv_actions; split; [apply WriteP.inv_shape_init | apply StructP.inv_struct_init]).
+  assert (Hr : Inv_reg st) by (apply reachable_inv_reg_actions; [split; [apply WriteP.inv_shape_init | apply StructP.inv_struct_init] | apply inv_reg_init]).
+  pose proof (write_keeps hc st w Hi Hr) as K. rewrite H in K. cbn [fst] in K. destruct K as (S & P & L & K).
+  split; [exact S|]. split; [exact P|]. split; [exact L|]. intros i idx. destruct (K i) as [Et Kv]. destruct (Kv idx) as [V U].
+  cbv zeta. split; [exact Et|]. repeat split.
+  - intros Ht Hd. destruct V as [E|[_ [F|D]]]; [exact E | congruence | congruence].
+  - intros Hs. destruct V as [E|[S1 _]]; [exact E | congruence].
+  - intros Hu. destruct U as [E|[_ N]]; [exact E | congruence].
+  - intros Hs. destruct U as [E|[S1 _]]; [exact E | congruence].
+Qed.
+
 Print Assumptions C20_reject.
 Print Assumptions C20_copy_numbers.
 Print Assumptions C20_reject_invisible.
 Print Assumptions C20_registries_reachable.
 Print Assumptions C20_single_lf_reject_invisible.
+Print Assumptions C20_failed_write_keeps_the_specification.
